@@ -4,7 +4,16 @@
    (committed id, committed Alh, precommitted id, precommitted Alh). *)
 From V Require Export Base.Hex Merkle.Sha256 Repl.Model.
 
+From Coq Require Export Uint63.
+
 Definition Hs := sha256.
+
+(* byte strings in case files: 7 bytes per primitive-integer literal (big endian), n = length *)
+Definition i2bytes7 (w : int) : bytes :=
+  map (fun k => Z.to_N (to_Z ((w >> k) land 255)%uint63)) [48; 40; 32; 24; 16; 8; 0]%uint63.
+Definition ib (n : N) (ws : list int) : bytes := take n (concat (map i2bytes7 ws)).
+Definition patch (b : bytes) (off : N) (x : bytes) : bytes :=
+  take off b ++ x ++ drop (off + len x) b.
 
 (* CurrentState of a store: CommittedAlh() and PrecommittedAlh() *)
 Inductive obs := Obs (cid : N) (calh : bytes) (pid : N) (palh : bytes).
@@ -34,7 +43,7 @@ Definition deliver_all (c : cfg) (skip : bool) (st : store) (bs : list bytes) : 
   fold_left (fun acc b =>
                match replicate Hs c skip (fst acc) b with
                | Ok st' => (st', snd acc + 1)
-               | _ => acc
+               | _ => (replicate_st Hs c skip (fst acc) b, snd acc)
                end) bs (st, 0).
 
 (* one step of the replay: the model's next state, or None when model and implementation differ *)
@@ -42,7 +51,7 @@ Definition step_ok (c : cfg) (st : store) (s : step) : option store :=
   match s with
   | SDeliver skip b out after =>
       let r := replicate Hs c skip st b in
-      let st' := match r with Ok s' => s' | _ => st end in
+      let st' := replicate_st Hs c skip st b in
       if res_eqb unit_eqb (match r with Ok _ => Ok tt | Err e => Err e | Panic => Panic end) out
          && obs_eqb (obs_of st') after then Some st' else None
   | SBatch skip bs n after =>
@@ -94,7 +103,7 @@ Definition dstep_ok (acks : N) (c : cfg) (st : primary * list store) (s : dstep)
   match s with
   | DNew a => Some (p_precommit p a, rs)
   | DReport u cid calh pid palh ok mayid mayalh pcom =>
-      let r := p_report acks p {| r_uuid := u; r_cid := cid; r_calh := calh; r_pid := pid; r_palh := palh |} in
+      let r := p_report Hs acks p {| r_uuid := u; r_cid := cid; r_calh := calh; r_pid := pid; r_palh := palh |} in
       match r with
       | Ok (p', (mi, ma)) =>
           if ok && (mi =? mayid) && bytes_eqb ma mayalh && (p_com p' =? pcom) then Some (p', rs) else None
